@@ -1458,6 +1458,68 @@ func R58() Rule {
 			// (a)
 			if fn := P.Func(core.PkgBttest, "isEmpty"); fn != nil && fn.Blocks != nil {
 				c.Fn("isEmpty")
+				// evidence of a cell: a branch fact `len(col.Cells) > 0` (or ≥ 1, ≠ 0), or the true edge of a
+				// predicate helper that answers true only on such evidence (columnHasCells, familyHasCells)
+				isCellCmp := func(l ssa.Value, op token.Token, rr ssa.Value) bool {
+					la := lenArg(l)
+					k, isK := core.ConstInt(rr)
+					if la == nil || !isK {
+						return false
+					}
+					ld, isLd := core.Resolve(la).(*ssa.UnOp)
+					if !isLd {
+						return false
+					}
+					fa, isFa := ld.X.(*ssa.FieldAddr)
+					if !isFa || !isCellsField(fa) {
+						return false
+					}
+					return (op == token.GTR && k >= 0) || (op == token.NEQ && k == 0) || (op == token.GEQ && k >= 1)
+				}
+				memo := map[*ssa.Function]bool{}
+				var hasCellsPred func(g *ssa.Function, depth int) bool
+				var evidenceAt func(b *ssa.BasicBlock, depth int) bool
+				evidenceAt = func(b *ssa.BasicBlock, depth int) bool {
+					for _, f := range core.FactsAt(b) {
+						if l, op, rr, isCmp := cmpNorm(f); isCmp && isCellCmp(l, op, rr) {
+							return true
+						}
+						if call, isC := core.Resolve(f.Cond).(*ssa.Call); isC && f.Polarity && hasCellsPred(call.Call.StaticCallee(), depth+1) {
+							return true
+						}
+					}
+					return false
+				}
+				hasCellsPred = func(g *ssa.Function, depth int) bool {
+					if g == nil || g.Blocks == nil || depth > 4 || core.PkgPathOf(g) != core.PkgBttest || g.Signature.Results().Len() != 1 || !isBoolType(g.Signature.Results().At(0).Type()) {
+						return false
+					}
+					if r, seen := memo[g]; seen {
+						return r
+					}
+					memo[g] = false
+					okG, k := true, 0
+					for _, r := range returnsIn(g) {
+						for _, v := range returnValues(r.Results[0]) {
+							k++
+							if bv, isB := core.ConstBool(v); isB {
+								if bv && !evidenceAt(r.Block(), depth) {
+									okG = false
+								}
+								continue
+							}
+							if bin, isBin := core.Resolve(v).(*ssa.BinOp); isBin && isCellCmp(bin.X, bin.Op, bin.Y) {
+								continue
+							}
+							if call, isC := core.Resolve(v).(*ssa.Call); isC && hasCellsPred(call.Call.StaticCallee(), depth+1) {
+								continue
+							}
+							okG = false
+						}
+					}
+					memo[g] = okG && k > 0
+					return memo[g]
+				}
 				ok, n := true, 0
 				for _, r := range returnsIn(fn) {
 					for _, v := range returnValues(r.Results[0]) {
@@ -1465,26 +1527,7 @@ func R58() Rule {
 							continue
 						}
 						n++
-						cellEvidence := false
-						for _, f := range core.FactsAt(r.Block()) {
-							l, op, rr, isCmp := cmpNorm(f)
-							if !isCmp {
-								continue
-							}
-							la := lenArg(l)
-							k, isK := core.ConstInt(rr)
-							if la == nil || !isK {
-								continue
-							}
-							if ld, isLd := core.Resolve(la).(*ssa.UnOp); isLd {
-								if fa, isFa := ld.X.(*ssa.FieldAddr); isFa && isCellsField(fa) {
-									if (op == token.GTR && k >= 0) || (op == token.NEQ && k == 0) || (op == token.GEQ && k >= 1) {
-										cellEvidence = true
-									}
-								}
-							}
-						}
-						if !cellEvidence {
+						if !evidenceAt(r.Block(), 0) {
 							ok = false
 						}
 					}
